@@ -24,7 +24,7 @@ package, provided they all agree on the parameter list.
 
 import ast
 
-from ..srcmodel import walk_local, dotted, norm, literals
+from ..srcmodel import walk_local, dotted, norm, literals, enclosing_stmt
 from . import common
 
 
@@ -779,4 +779,112 @@ def validated_on_every_path(ctx, funcs, rule='VALIDATE'):
                                  f"without handing `{p}` to {callee}: an illegal value is silently accepted on that path "
                                  f"(the path is not chosen by looking at `{p}`)",
                       key=f"{rule}|{fi.qualname}|{p}|{callee}", where=where)
+    return n
+
+
+def undefined_names(ctx, funcs, rule='DEFUSE'):
+    """A name that is read but bound nowhere - not in the function, not in an
+    enclosing function or class-free scope, not at module level (imports and
+    `from x import *` followed through the constant folder's module
+    environment), not a builtin - raises NameError when the line runs (a loop
+    variable the surrounding code no longer has, a helper that was renamed
+    everywhere but in an error message)."""
+    import builtins
+    n = 0
+    per_module = {}
+    for fi in funcs:
+        if fi.module.name in per_module:
+            modnames, star_unknown = per_module[fi.module.name]
+        else:
+          menv = ctx.fold.module_env(fi.module.name)
+          modnames = set(menv)
+          for st in ast.walk(fi.module.tree):
+              if isinstance(st, (ast.FunctionDef, ast.AsyncFunctionDef, ast.ClassDef)) and getattr(st, '_parent', None) is fi.module.tree:
+                  modnames.add(st.name)
+              elif isinstance(st, ast.Name) and isinstance(st.ctx, ast.Store):
+                  # any module-level store (also under `if` / `try`)
+                  p_ = getattr(st, '_parent', None)
+                  while p_ is not None and not isinstance(p_, (ast.FunctionDef, ast.AsyncFunctionDef, ast.ClassDef, ast.Lambda, ast.Module)):
+                      p_ = getattr(p_, '_parent', None)
+                  if isinstance(p_, ast.Module):
+                      modnames.add(st.id)
+              elif isinstance(st, (ast.Import, ast.ImportFrom)):
+                  for al in st.names:
+                      if al.name != '*':
+                          modnames.add((al.asname or al.name).split('.')[0])
+          star_unknown = any(isinstance(st, ast.ImportFrom) and any(al.name == '*' for al in st.names) and st.level == 0
+                             for st in ast.walk(fi.module.tree))
+          per_module[fi.module.name] = (modnames, star_unknown)
+
+        def bound_in(fn):
+            out = set()
+            a = fn.args
+            for x in a.posonlyargs + a.args + a.kwonlyargs:
+                out.add(x.arg)
+            if a.vararg:
+                out.add(a.vararg.arg)
+            if a.kwarg:
+                out.add(a.kwarg.arg)
+            for x in ast.walk(fn):
+                if isinstance(x, ast.Name) and isinstance(x.ctx, (ast.Store, ast.Del)):
+                    # the target of a comprehension is local to the comprehension (a walrus inside it is not)
+                    p_ = getattr(x, '_parent', None)
+                    in_comp_target = False
+                    while p_ is not None and p_ is not fn:
+                        if isinstance(p_, ast.NamedExpr):
+                            break
+                        if isinstance(p_, ast.comprehension):
+                            in_comp_target = any(y is x for y in ast.walk(p_.target))
+                            break
+                        if isinstance(p_, (ast.stmt,)):
+                            break
+                        p_ = getattr(p_, '_parent', None)
+                    if not in_comp_target:
+                        out.add(x.id)
+                elif isinstance(x, (ast.FunctionDef, ast.AsyncFunctionDef, ast.ClassDef)) and x is not fn:
+                    out.add(x.name)
+                elif isinstance(x, (ast.Import, ast.ImportFrom)):
+                    for al in x.names:
+                        out.add((al.asname or al.name).split('.')[0])
+                elif isinstance(x, ast.ExceptHandler) and x.name:
+                    out.add(x.name)
+                elif isinstance(x, (ast.Global, ast.Nonlocal)):
+                    out |= set(x.names)
+                elif isinstance(x, ast.arg):
+                    out.add(x.arg)          # parameters of nested lambdas / functions (over-approximation)
+            return out
+        scope = set()
+        f = fi
+        while f is not None:
+            scope |= bound_in(f.node)
+            f = f.outer
+        top = fi
+        while top.outer is not None:
+            top = top.outer
+        if top.cls is not None:
+            scope.add('__class__')
+        for x in walk_local(fi.node):
+            if isinstance(x, ast.Name) and isinstance(x.ctx, ast.Load):
+                nm = x.id
+                if nm in scope or nm in modnames or hasattr(builtins, nm) or nm in ('__file__', '__name__', '__doc__'):
+                    continue
+                # bound by a comprehension that encloses the read?
+                p_ = getattr(x, '_parent', None)
+                comp_bound = False
+                while p_ is not None and not isinstance(p_, (ast.FunctionDef, ast.AsyncFunctionDef, ast.Module)):
+                    if isinstance(p_, (ast.ListComp, ast.SetComp, ast.GeneratorExp, ast.DictComp)):
+                        if any(isinstance(y, ast.Name) and y.id == nm for g in p_.generators for y in ast.walk(g.target)):
+                            comp_bound = True
+                    p_ = getattr(p_, '_parent', None)
+                if comp_bound:
+                    continue
+                n += 1
+                if star_unknown:
+                    ctx.undecided(rule, f"{fi.qualname}: `{nm}` is bound somewhere", 'the module star-imports from outside the package')
+                    continue
+                ctx.violation(rule, f"{fi.qualname}: `{nm}` is bound somewhere",
+                              f"`{nm}` (line {x.lineno}) is read in {fi.qualname} but is bound neither there, nor in an enclosing "
+                              f"function, nor at module level, nor is it a builtin: NameError as soon as this line runs "
+                              f"(`{norm(enclosing_stmt(x))[:70]}`)", key=f"{rule}|{fi.qualname}|undefined-name|{nm}",
+                              where=common.loc(fi, x))
     return n
